@@ -197,5 +197,23 @@ def descWFB (x : PartDesc) (size : Nat) : Bool :=
   decide (x.difi.ivfcOffset + 0x78 ≤ x.difi.hashOffset ∨ x.difi.hashOffset + 0x20 * x.master.length ≤ x.difi.ivfcOffset) &&
   decide (x.difi.dpfsOffset + 0x50 ≤ x.difi.hashOffset ∨ x.difi.hashOffset + 0x20 * x.master.length ≤ x.difi.dpfsOffset)
 
+/-- header and table below the partitions, the descriptor inside the table, descriptors and partition windows pairwise apart -/
+def reopenLayoutB (c : Cont) (pi : Nat) (p : PartSt) : Bool :=
+  decide (0x200 ≤ c.tableOff) && decide (c.tableOff + c.tableSize ≤ c.F.length) &&
+  decide (p.descOff + p.descSize ≤ c.tableSize) && decide (c.tableOff + c.tableSize ≤ p.pOff) && decide (p.pOff ≤ c.F.length) &&
+  (List.range c.parts.length).all fun j => j == pi ||
+    match c.parts[j]? with
+    | none => true
+    | some q => decide (q.descOff + q.descSize ≤ p.descOff ∨ p.descOff + p.descSize ≤ q.descOff) &&
+        decide (c.tableOff + c.tableSize ≤ q.pOff) && decide (q.pOff + q.pSize ≤ p.pOff ∨ p.pOff + p.pSize ≤ q.pOff)
+
+/-- every partition of the container meets the side conditions of the re-open theorems -/
+def regularB (c : Cont) : Bool :=
+  (List.range c.parts.length).all fun j =>
+    match c.parts[j]? with
+    | none => true
+    | some p => geomOK (p.P c.F) p.tree p.master && tablesApartB p.dpfs p.tree &&
+        descWFB ⟨p.difi, p.ivfc, p.dpfs, p.master⟩ p.descSize && reopenLayoutB c j p
+
 end Save
 end Pyctr
